@@ -39,6 +39,13 @@ def cases(tier, seed):
         for si in (0, 1, 4) if tier == "quick" else (0, 1, 2, 3, 4, 5):
             for cfg in cfgs:
                 out.append({"rows": [list(r) for r in rows], "obj": obj, "vk": vk, "fmt": fmt, "si": si, "cfg": cfg})
+    # the flow-integration solver is a solve as well (equality rows only / no rows: no slack copy is made on the way)
+    for rows in ([("affine", "eq0")], [("affine", "eqoff")], [], [("affine", "ranged")]):
+        for obj in ("qin", "qdiag"):
+            for vk in (["free", "free"], ["boxed", "free"]):
+                for fmt in ("coo", "csr"):
+                    for si in (0, 1):
+                        out.append({"rows": [list(r) for r in rows], "obj": obj, "vk": vk, "fmt": fmt, "si": si, "cfg": {"integration": True}})
     for (rows, obj, vk, fmt) in table(tier)[::4]:
         out.append({"rows": [list(r) for r in rows], "obj": obj, "vk": vk, "fmt": fmt, "si": 0, "cfg": {}, "zero_nominal": True})
         out.append({"rows": [list(r) for r in rows], "obj": obj, "vk": vk, "fmt": fmt, "si": 0, "cfg": {}, "huge": True})
@@ -71,12 +78,31 @@ def one(case, policy):
     if case.get("huge"):
         spec["rows"][0]["lb"], spec["rows"][0]["ub"] = -1e20, 1e30
     cfg = dict(case["cfg"]); cfg["iteration_limit"] = 40
+    integration = cfg.pop("integration", False)
     params = R.make_params(cfg, sc)
     user = UserProblem(spec)
     prob = RecordingProblem(user, record_sites=False, snapshot=True)
     x0 = np.array(spec["x0"], dtype=float)
     y0 = np.array([0.5, -0.25][: len(case["rows"])], dtype=float)
     owned = owned_snapshot({"x0": x0, "y0": y0}, params, user)
+    if integration:
+        import hashlib
+        from pygradflow.integration.integration_solver import IntegrationSolver
+
+        class _Rec:
+            pass
+
+        rec = _Rec()
+        try:
+            with np.errstate(all="ignore"):
+                res = IntegrationSolver(prob, params).solve(x0, y0)
+            rec.digest = hashlib.sha256(res.status.name.encode() + np.asarray(res.x).tobytes() + np.asarray(res.y).tobytes()
+                                        + np.asarray(res.d).tobytes()).hexdigest()[:20]
+        except Exception as e:
+            if type(e).__name__ == "CaseTimeout":
+                raise
+            rec.digest = "exc:" + type(e).__name__
+        return spec, prob, rec, owned, params
     solver = R.RecSolver(prob, params)
     rec = R.run_solve(prob, params, x0, y0, solver=solver)
     # note: run_solve copies x0/y0 into fresh arrays; pass the originals instead
